@@ -57,8 +57,13 @@ class DataReader(object):
         self.EOD = None
         self.lines = [b'']
         self.i = 0
+        self.too_big = False
 
     def _append_line(self, line):
+        if self.EOD is None:
+            # Size of the data up to and including the End-Of-Data line, no
+            # matter how it arrives.
+            self.size += len(line)
         if len(self.lines) <= self.i:
             self.lines.append(line)
         else:
@@ -103,13 +108,19 @@ class DataReader(object):
         if piece == b'':
             raise ConnectionLost()
 
-        self.size += len(piece)
-        if self.max_size and self.size > self.max_size:
-            self.EOD = self.i
-            raise MessageTooBig()
-
         self.add_lines(piece)
+        self._check_size()
         return self.EOD is None
+
+    def _check_size(self):
+        if self.max_size and self.size > self.max_size:
+            if self.EOD is None:
+                # Nothing of an oversized message is kept.
+                del self.lines[:self.i]
+                self.i = 0
+            if not self.too_big:
+                self.too_big = True
+                raise MessageTooBig()
 
     def return_all(self):
         assert self.EOD is not None
@@ -129,9 +140,19 @@ class DataReader(object):
 
         """
         self.from_recv_buffer()
-        while self.recv_piece():
-            pass
-        return self.return_all()
+        while True:
+            try:
+                self._check_size()
+                if not self.recv_piece():
+                    break
+            except MessageTooBig:
+                # Keep reading up to the End-Of-Data marker, otherwise the
+                # rest of the message would be taken for commands.
+                pass
+        data = self.return_all()
+        if self.too_big:
+            raise MessageTooBig()
+        return data
 
 
 # vim:et:fdm=marker:sts=4:sw=4:ts=4
